@@ -256,6 +256,7 @@ func runFileStatic(ctx *fw.Ctx, c *fileCase) {
 		iana   bool
 		iaid   uint32
 		listed bool
+		relay  bool // DHCPv6: relayed, MAC only in the relay's client link-layer address option
 	}
 	var rqs []rq
 	var keys []string
@@ -271,6 +272,9 @@ func runFileStatic(ctx *fw.Ctx, c *fileCase) {
 		rqs = append(rqs, rq{mac: mac, iana: true, iaid: rng.Uint32(), listed: true})
 		if c.V6 && rng.Intn(3) == 0 {
 			rqs = append(rqs, rq{mac: mac, iana: false, listed: true})
+		}
+		if c.V6 && len(mac) == 6 && rng.Intn(2) == 0 {
+			rqs = append(rqs, rq{mac: mac, iana: true, iaid: rng.Uint32(), listed: true, relay: true})
 		}
 	}
 	for i := 0; i < 3; i++ {
@@ -289,7 +293,12 @@ func runFileStatic(ctx *fw.Ctx, c *fileCase) {
 			j.V4 = chain
 		}
 		for i, r := range rqs {
-			if c.V6 {
+			if c.V6 && r.relay {
+				// client identified by an enterprise DUID; its MAC is known only to the relay (option 79)
+				inner := pkt.Msg6(1, uint32(i+1), []pkt.Opt6{pkt.O6(pkt.OptClientID6, pkt.DUIDEN(4242, []byte{byte(i), 1, 2, 3})), pkt.IANA(r.iaid, 0, 0, nil)})
+				rel := pkt.Relay6(12, 0, net.ParseIP("2001:db8:9::1"), net.ParseIP("fe80::9"), []pkt.Opt6{pkt.O6(pkt.OptClientLL, append([]byte{0, 1}, r.mac...))}, inner)
+				j.Reqs = append(j.Reqs, ChainReq{V6: true, Hex: hex.EncodeToString(rel), RxIf: fakeIf, Peer: "2001:db8:ffff::99", Port: 547})
+			} else if c.V6 {
 				j.Reqs = append(j.Reqs, ChainReq{V6: true, Hex: v6Req(uint32(i+1), r.mac, r.iana, r.iaid), RxIf: fakeIf, Peer: "2001:db8:ffff::99", Port: 546})
 			} else {
 				j.Reqs = append(j.Reqs, ChainReq{Hex: v4Req(uint32(i+1), r.mac), RxIf: fakeIf, Peer: "10.9.9.9", Port: 67})
@@ -370,6 +379,9 @@ func runFileStatic(ctx *fw.Ctx, c *fileCase) {
 				ctx.Viol("C10", "wrong-address-v6", "file lists %s -> %s; the reply carries %d IA_NA, for IAID %#x: %v (want exactly one IA_NA with that IAID and that address)\n%s", net.HardwareAddr(r.mac), wantIP, n, r.iaid, addrs, show)
 			}
 			ctx.Count("file.static.served", 1)
+			if r.relay {
+				ctx.Count("file.static.served_relayed_client_ll", 1)
+			}
 		} else if !bytes.Equal(tb, bb) {
 			ctx.Viol("C10", "unlisted-client-touched", "client %s (listed=%v, IA_NA requested=%v) must get nothing from this plugin but its reply differs from the reply without the plugin", net.HardwareAddr(r.mac), listed, r.iana)
 		} else {
